@@ -103,6 +103,15 @@ Theorem C06_propagate_sound_total_head : forall g a s ev fuel,
 Proof. exact propagate_sound_total_head. Qed.
 Print Assumptions C06_propagate_sound_total_head.
 
+(* ... and for any supported valuation with a non-empty initial `current` whose entries hold *)
+Theorem C06_propagate_sound_supported_total : forall g a s ev cur0 sched fuel,
+    supported g a s -> sat_lits s ev -> holds_in s cur0 ->
+    closed_graph g -> ev_in_range g ev -> (fuel_bound g ev <= fuel)%nat ->
+    (exists m, propagate_m g ev cur0 sched fuel = Done m /\ holds_in s m) \/
+    propagate_m g ev cur0 sched fuel = BadSched.
+Proof. exact propagate_sound_supported_total. Qed.
+Print Assumptions C06_propagate_sound_supported_total.
+
 Theorem C06_propagate_inconsistent_total : forall g ev sched fuel,
     closed_graph g -> ev_in_range g ev -> (fuel_bound g ev <= fuel)%nat ->
     propagate_m g ev [] sched fuel <> BadSched ->
